@@ -235,10 +235,27 @@ impl Obs {
     }
 }
 
-/// Standard `main` for a harness binary.
+/// Standard `main` for a harness binary (cases run in parallel).
 pub fn main_with(
     generate: impl Fn(&mut Rng, &str, &mut CaseWriter),
     run: impl Fn(&Case) -> Obs + Sync,
+) {
+    main_impl(generate, run, false)
+}
+
+/// Same, but cases run one after the other (for harnesses that use process-global state such as
+/// the bgzf worker gate or a private thread pool).
+pub fn main_serial(
+    generate: impl Fn(&mut Rng, &str, &mut CaseWriter),
+    run: impl Fn(&Case) -> Obs + Sync,
+) {
+    main_impl(generate, run, true)
+}
+
+fn main_impl(
+    generate: impl Fn(&mut Rng, &str, &mut CaseWriter),
+    run: impl Fn(&Case) -> Obs + Sync,
+    force_serial: bool,
 ) {
     let args: Vec<String> = std::env::args().collect();
     silence_panics();
@@ -253,7 +270,7 @@ pub fn main_with(
         Some("run") => {
             use rayon::prelude::*;
             let cases = read_cases(&args[2]);
-            let serial = std::env::var("NV_SERIAL").is_ok();
+            let serial = force_serial || std::env::var("NV_SERIAL").is_ok();
             let run1 = |c: &Case| -> String {
                 let o = match guarded(panic::AssertUnwindSafe(|| run(c))) {
                     Outcome::Done(o) => o,
